@@ -156,6 +156,7 @@ def evaluate(cls, key, d, fr, model, corr, only=None):
                          "the very object the response was built from", repr(raw)))
         req.append("raw " + otok); impl.append(canon(raw, fr)); meta.append((otok, "raw_value"))
         a = observe(lambda: r.value, fr)
+        first_value = a
         req.append("value %s %s" % (key, otok)); impl.append(a); meta.append((otok, "value"))
         sreq.append("spec value %s %s %s" % (key, otok, a)); smeta.append((otok, "value", a))
         if a.startswith("ok frame") and r.value is not fval:
@@ -178,6 +179,16 @@ def evaluate(cls, key, d, fr, model, corr, only=None):
             for i, n in spec_attr:
                 a = observe(lambda: getattr(r, n), fr)
                 sreq.append("spec bit %s %d %s" % (otok, i, a)); smeta.append((otok, "bit:" + n, a))
+        # a response says the same thing every time it is asked (after str(), status, … have looked at it):
+        # the later answers are judged by the specification like the first
+        again = observe(lambda: r.value, fr)
+        sreq.append("spec value %s %s %s" % (key, otok, again)); smeta.append((otok, "value", again))
+        if again != first_value:
+            viol.append(("resp:%s:value-again:%s" % (cls.__name__, okind(otok)),
+                         {"class": key, "outcome": otok, "accessor": "value (second read, after str/status)"},
+                         first_value, again))
+        again_s = observe_str(r, fval, fr)
+        sreq.append("spec str " + ("ok str x" if again_s.startswith("ok") else again_s)); smeta.append((otok, "str", again_s))
     if model is None:
         return viol, 0
     ans = model.batch(req)
